@@ -664,6 +664,46 @@ theorem groups_valid (old new : Shape) (gs : List Group) (h : groups old new = s
   obtain ⟨a, b, c⟩ := groupsFrom_spec old new _ 0 0 gs h (Nat.zero_le _) (Nat.zero_le _)
   exact ⟨by simpa using a, by simpa using b, fun g hg => (c g hg).1⟩
 
+/-- `_get_reshaped_indices` as a whole: any successful run of the (grouped)
+    algorithm produces index expressions that evaluate to `unravel old (ravel new i)` -/
+theorem reshapeIdx_eval (o : Order) (old new : Shape) (b : List (String × Arr Val)) (i : Idx)
+    (ix : List SExpr) (hprod : prod old = prod new) (hi : inB new i = true)
+    (hix : reshapeIdx o old new = some ix) :
+    ix.map (eval (idxEnv i b))
+      = (unravel o old (ravel o new i)).map (fun x => Val.i (x : Nat)) := by
+  have h1g : ∀ (ix : List SExpr), old ≠ [] →
+      genIdx o old new ((List.range new.length).map ivar) = some ix →
+      ix.map (eval (idxEnv i b))
+        = (unravel o old (ravel o new i)).map (fun x => Val.i (x : Nat)) := by
+    intro ix hne hg
+    rw [← inB_length hi] at hg
+    exact genIdx_eval _ o old new _ ix i (eval_ivars0 i b) hi hne hprod hg
+  unfold reshapeIdx at hix
+  simp only at hix
+  by_cases h0 : old = []
+  · rw [if_pos h0] at hix
+    by_cases h1 : prod new = 1
+    · rw [if_pos h1] at hix
+      cases hix
+      rw [h0]
+      cases o <;> simp [unravel, unravelC, unravelF]
+    · rw [if_neg h1] at hix; cases hix
+  · rw [if_neg h0] at hix
+    by_cases h1 : new = []
+    · rw [if_pos h1] at hix
+      exact h1g ix h0 hix
+    · rw [if_neg h1] at hix
+      by_cases h2 : old.contains 0 = true ∧ new.contains 0 = true
+      · rw [if_pos h2] at hix
+        exact h1g ix h0 hix
+      · rw [if_neg h2] at hix
+        obtain ⟨gs, hgs, hgi⟩ := Option.bind_eq_some_iff.mp hix
+        obtain ⟨ho, hn, hp⟩ := groups_valid old new gs hgs
+        have hev := groupIdx_eval o i b gs 0 ix hgi hp (Nat.zero_le _)
+          (by rw [hn]; simpa using hi)
+        rw [List.drop_zero, groupSrc_eq o gs i hp (by rw [hn]; exact hi), ho, hn] at hev
+        exact hev
+
 /-- `map_reshape` as a whole: any successful run of the (grouped) algorithm reads
     the element `unravel old (ravel new i)` -/
 theorem reshape_eval (o : Order) (old new : Shape) (a : Arr Val) (i : Idx) (e : SExpr)
@@ -672,35 +712,9 @@ theorem reshape_eval (o : Order) (old new : Shape) (a : Arr Val) (i : Idx) (e : 
     eval (idxEnv i [("_in0", a)]) e = a.get (unravel o old (ravel o new i)) := by
   unfold Lower.reshape at hg
   obtain ⟨ix, hix, rfl⟩ := Option.map_eq_some_iff.mp hg
-  unfold reshapeIdx at hix
-  simp only at hix
-  by_cases h0 : old = []
-  · rw [if_pos h0] at hix
-    by_cases h1 : prod new = 1
-    · rw [if_pos h1] at hix
-      cases hix
-      have hev : ([] : List SExpr).map (eval (idxEnv i [("_in0", a)]))
-          = ([] : Idx).map (fun x => Val.i (x : Nat)) := rfl
-      rw [eval_sub_of _ _ _ _ hev, lookupArr_head]
-      simp only [ha, h0]
-      cases o <;> simp [inB, unravel, unravelC, unravelF]
-    · rw [if_neg h1] at hix; cases hix
-  · rw [if_neg h0] at hix
-    by_cases h1 : new = []
-    · rw [if_pos h1] at hix
-      exact reshape1_eval o old new a i ix ha h0 hprod hi hix
-    · rw [if_neg h1] at hix
-      by_cases h2 : old.contains 0 = true ∧ new.contains 0 = true
-      · rw [if_pos h2] at hix
-        exact reshape1_eval o old new a i ix ha h0 hprod hi hix
-      · rw [if_neg h2] at hix
-        obtain ⟨gs, hgs, hgi⟩ := Option.bind_eq_some_iff.mp hix
-        obtain ⟨ho, hn, hp⟩ := groups_valid old new gs hgs
-        have hev := groupIdx_eval o i [("_in0", a)] gs 0 ix hgi hp (Nat.zero_le _)
-          (by rw [hn]; simpa using hi)
-        rw [List.drop_zero, groupSrc_eq o gs i hp (by rw [hn]; exact hi), ho, hn] at hev
-        subst ha
-        exact eval_sub_unravel o a i ix _ (hprod ▸ ravel_lt o new i hi) hev
+  have hev := reshapeIdx_eval o old new [("_in0", a)] i ix hprod hi hix
+  subst ha
+  exact eval_sub_unravel o a i ix _ (hprod ▸ ravel_lt o new i hi) hev
 
 /-! ### the algorithm never gives up on shapes of equal size -/
 
